@@ -7,5 +7,9 @@ s = re.sub(r'<!-- SEEDED-TABLE-BEGIN -->.*?<!-- SEEDED-TABLE-END -->', lambda m:
 metas = [json.load(open(f)) for f in glob.glob('/verif/seeded/*/meta.json')]
 n = len(metas)
 first = sum(1 for m in metas if (m.get('first_evaluation') or {}).get('exit') == 1 and not (m.get('after_strengthening') or '').startswith('NOT a first'))
+later = sum(1 for m in metas if m.get('detected')) - first
+notdet = n - first - later
+counts = f"{n} (caught by the quick check of their property at the first attempt: {first}; missed at first, or first attempt without a verdict, and caught after a general strengthening: {later}; not detected: {notdet})"
+s = re.sub(r'<!-- SEEDED-COUNTS-BEGIN -->.*?<!-- SEEDED-COUNTS-END -->', lambda m: '<!-- SEEDED-COUNTS-BEGIN -->' + counts + '<!-- SEEDED-COUNTS-END -->', s, flags=re.S)
 open(p, 'w').write(s)
 print(n, 'seeded changes;', first, 'caught at first attempt;', n - first, 'needed strengthening')
